@@ -478,6 +478,13 @@ impl Task for QueryTask {
 impl BasicTypeColumn {
     fn from_boxed_data(data: BoxedData) -> BasicTypeColumn {
         match data.get_type() {
+            // Integer and float vectors encode NULL as a reserved value (I64_NULL / F64_NULL). The
+            // row format maps it to `Null` (`get_raw`); the column format has to agree.
+            EncodingType::I64 | EncodingType::F64
+                if (0..data.len()).any(|i| data.get_raw(i) == RawVal::Null) =>
+            {
+                BasicTypeColumn::Mixed((0..data.len()).map(|i| data.get_raw(i)).collect())
+            }
             EncodingType::Str => {
                 BasicTypeColumn::String(data.cast_ref_str().iter().map(|s| s.to_string()).collect())
             }
